@@ -1,0 +1,16 @@
+//go:build verif
+
+// Contracts for package posix, read by /verif/govc. Comments only; compiled only with tag "verif".
+package posix
+
+// ---- C13: range reads ----------------------------------------------------------
+// The section handed to the client lies inside the object, Content-Length is the length of that
+// section, Content-Range is built from exactly (first, last, size) and is present iff the range
+// was valid, and the whole file is streamed only when the section is the whole object.
+//@ func (*Posix) GetObject
+//@   at-call io.NewSectionReader {C13} [section-inside-object] requires 0 <= $1 && 0 <= $2 && $1 + $2 <= objSize
+//@   at-call fmt.Sprintf {C13} [content-range-fields] when $0 == "bytes %v-%v/%v" :: requires len($1) == 3 \
+//@        && as($1[0], int64) == startOffset && as($1[1], int64) == startOffset + length - 1 && as($1[2], int64) == objSize
+//@   at-return {C13} [content-length-is-section] when err == nil :: ensures *ret0.ContentLength == length
+//@   at-return {C13} [content-range-iff-valid] when err == nil :: ensures (*ret0.ContentRange != "") <==> isValid
+//@   at-return {C13} [whole-file-only-for-whole-object] when err == nil && typeIs(ret0.Body, *os.File) :: ensures startOffset == 0 && length == objSize
